@@ -178,10 +178,11 @@ pub struct Entry {
 /// Verdict of the model on one `get`.
 #[derive(Clone, Debug, PartialEq, Eq)]
 pub enum Verdict {
-    /// Nothing to object to. `live` = the model holds an entry that the statement still allows
-    /// to be served (age <= L, or L undefined); `hit` = the cache returned it;
+    /// Nothing to object to. `held` = the model holds an entry for the query (inserted, not
+    /// cleared); `live` = held and the statement still allows it to be served (age <= L, or L
+    /// undefined); `hit` = the cache returned it;
     /// `age_vs_l`: -1 younger than L, 0 exactly L, 1 older, 2 = L undefined / no entry.
-    Ok { live: bool, hit: bool, age_vs_l: i8, after_clear: bool },
+    Ok { held: bool, live: bool, hit: bool, age_vs_l: i8, after_clear: bool },
     /// (oracle clause, explanation)
     Violation(String, String),
 }
@@ -244,18 +245,18 @@ impl Model {
             (None, None) => (None, false),
         };
         // age relation of the model's entry
-        let (live, age_vs_l) = match &entry {
+        let (held, live, age_vs_l) = match &entry {
             Some(e) if !after_clear => {
                 let age = at_ms - e.inserted_ms;
                 match lifetime_secs(&self.cfg, qtype, stored(e.result)) {
-                    Some(l) => (age <= l * 1000, (age.cmp(&(l * 1000)) as i8)),
-                    None => (true, 2),
+                    Some(l) => (true, age <= l * 1000, (age.cmp(&(l * 1000)) as i8)),
+                    None => (true, true, 2),
                 }
             }
-            _ => (false, 2),
+            _ => (false, false, 2),
         };
         let (obs_id, obs_kind) = match obs {
-            Observation::Miss => return Verdict::Ok { live, hit: false, age_vs_l, after_clear: false },
+            Observation::Miss => return Verdict::Ok { held, live, hit: false, age_vs_l, after_clear: false },
             Observation::OtherError => {
                 return Verdict::Violation(
                     "transient-error-returned".into(),
@@ -333,7 +334,7 @@ impl Model {
                 self.last_report.insert(query, reported);
             }
         }
-        Verdict::Ok { live, hit: true, age_vs_l, after_clear }
+        Verdict::Ok { held, live, hit: true, age_vs_l, after_clear }
     }
 }
 
